@@ -68,6 +68,7 @@ package controllerv1
 // empty batches.
 //@ func (*TempoController).Search [C12,C15]
 //@   flag checks=-assert,-index,+nilchan
+//@   flag drains=1,3
 //@   at ResponseWriter).Write$ separator-follows-an-element: len(arg0) == 1 && int(arg0[0]) == 44 ==> respLast != 91 && respLast != 44
 //@   at ResponseWriter).Write$ trace-follows-bracket-or-separator: aliases(arg0, strTrace) && len(arg0) == len(strTrace) ==> respLast == 91 || respLast == 44
 //@   at ResponseWriter).Write$ found-trace-follows-bracket-or-separator: aliases(arg0, bTrace) && len(arg0) == len(bTrace) ==> respLast == 91 || respLast == 44
@@ -93,6 +94,7 @@ package controllerv1
 // and \U escapes are rejected by every JSON parser), separators as in Search.
 //@ func (*TempoController).Tags [C12,C15]
 //@   flag checks=-assert,-index,+nilchan
+//@   flag drains=1
 //@   at ResponseWriter).Write$ separator-follows-an-element: len(arg0) == 1 && int(arg0[0]) == 44 ==> respLast != 91 && respLast != 44
 //@   at ResponseWriter).Write$ element-is-a-json-string: len(arg0) > 0 && !(len(arg0) == 1 && int(arg0[0]) == 44) && int(arg0[0]) != 123 && int(arg0[0]) != 93 ==> str(arg0) == jsonStr(tag)
 //@   at ResponseWriter).Write$ element-follows-bracket-or-separator: len(arg0) > 0 && !(len(arg0) == 1 && int(arg0[0]) == 44) && int(arg0[0]) != 123 && int(arg0[0]) != 93 ==> respLast == 91 || respLast == 44
@@ -104,6 +106,7 @@ package controllerv1
 //@     modifies respLast
 //@ func (*TempoController).Values [C12,C15]
 //@   flag checks=-assert,-index,+nilchan
+//@   flag drains=1
 //@   at ResponseWriter).Write$ separator-follows-an-element: len(arg0) == 1 && int(arg0[0]) == 44 ==> respLast != 91 && respLast != 44
 //@   at ResponseWriter).Write$ element-is-a-json-string: len(arg0) > 0 && !(len(arg0) == 1 && int(arg0[0]) == 44) && int(arg0[0]) != 123 && int(arg0[0]) != 93 ==> str(arg0) == jsonStr(val)
 //@   at ResponseWriter).Write$ element-follows-bracket-or-separator: len(arg0) > 0 && !(len(arg0) == 1 && int(arg0[0]) == 44) && int(arg0[0]) != 123 && int(arg0[0]) != 93 ==> respLast == 91 || respLast == 44
@@ -138,8 +141,10 @@ package controllerv1
 //@   ensures isnil(result1) ==> result0 != nil
 //@ func (*TempoController).TagsV2 [C12]
 //@   flag checks=-assert,-index,+nilchan
+//@   flag drains=2
 //@ func (*TempoController).ValuesV2 [C12]
 //@   flag checks=-assert,-index,+nilchan
+//@   flag drains=2
 
 // GET /api/traces/{traceId}: a trace id of any length ends in a response - the hex
 // decoder is never handed more digits than its 32-byte buffer holds (it panics
